@@ -28,8 +28,10 @@ func (m *EnvelopeMux) ListenClient(ctx context.Context, c *ClientChannel) error 
 }
 
 func (m *EnvelopeMux) listen(ctx context.Context, c *channel) error {
-	if err := c.ensureEstablished("receive"); err != nil {
-		return err
+	// Only the session state is required: a transport that was already closed by the remote
+	// party may still hold envelopes to be received, which have to be consumed as well.
+	if s := c.State(); s != SessionStateEstablished {
+		return fmt.Errorf("receive: cannot do in the %v state", s)
 	}
 
 	// The loop runs until the receiver is done, instead of while the channel is established: a
